@@ -256,10 +256,17 @@ def impl_run(case):
     def is_open():
         return sock.fd in loop.readers
 
+    escaped = []
+
     def handle_read():
+        """the event loop's callback wrapper: an exception leaving the reader callback is logged by asyncio and the
+        reader stays registered - observed here as an ('escape', class) event, judged by the oracle"""
         router.in_read = True
         try:
             conn._handle_read()
+        except Exception as e:  # noqa
+            escaped.append(type(e).__name__)
+            log.append(("escape", type(e).__name__))
         finally:
             router.in_read = False
 
@@ -270,7 +277,10 @@ def impl_run(case):
         before, guard = len(log), 0
         was_open = is_open()
         while sock.rx and is_open():
+            n_esc = len(escaped)
             handle_read()
+            if len(escaped) > n_esc:
+                break
             guard += 1
             assert guard < 200000
         if was_open and not is_open():
@@ -512,6 +522,12 @@ def expected(case, obs):
 def oracle(case, obs):
     """C06 on the implementation's observations; None or (key, description)."""
     ev = obs["events"]
+    for e in ev:
+        if e[0] == "escape":
+            return ("read-handler-exception-escapes", "%s left the connection's read handler while it processed data from the "
+                    "peer: the event loop only logs it, the bad peer is not contained (connection closed=%r, still registered=%r, "
+                    "pending requests failed=%r)" % (e[1], obs["closed"], obs["reader"],
+                                                     any(x[0] == "fail" for x in ev)))
     for e in ev:
         if e[0] in ("deliver", "fail", "refused", "sent") and e[1][0] == "weird":
             return ("malformed-message-object", "a %s message has an unexpected shape: %r" % (e[0], e[1][1]))
